@@ -1,0 +1,32 @@
+//go:build verif
+
+package hclsyntax
+
+import (
+	"github.com/hashicorp/hcl/v2"
+	"github.com/zclconf/go-cty/cty"
+)
+
+// VerifSplatHook, when non-nil, receives one event for every access to the
+// per-context state a splat expression keeps inside its anonymous symbol.
+// site is "set", "get" or "clear". It is called while the symbol's own lock
+// is held, so the observer sees events in the order the state changed.
+// It must be installed before any concurrent evaluation starts.
+var VerifSplatHook func(site string, sym *AnonSymbolExpr, ctx *hcl.EvalContext, val cty.Value, exists bool)
+
+// VerifYieldHook, when non-nil, is called at points of a splat evaluation
+// where another goroutine could interleave ("splat-after-set",
+// "splat-before-clear").
+var VerifYieldHook func(site string)
+
+func verifEvent(site string, sym *AnonSymbolExpr, ctx *hcl.EvalContext, val cty.Value, exists bool) {
+	if h := VerifSplatHook; h != nil {
+		h(site, sym, ctx, val, exists)
+	}
+}
+
+func verifYield(site string) {
+	if h := VerifYieldHook; h != nil {
+		h(site)
+	}
+}
